@@ -2,6 +2,7 @@
 package c10
 
 import (
+	"reflect"
 	"errors"
 	"fmt"
 	"sort"
@@ -396,6 +397,30 @@ func oracle(c Case) (evid.Info, error) {
 		return fail(mismatch("the Neo4j builder's text has the model's shape but not its meaning", c, t2, neoBuilder.Parameters, want, got, why))
 	}
 	cls["verdict:neo4j-text"] = true
+
+	// (C) the criteria values are the caller's: a second query assembled from the SAME values (a count before a
+	// fetch, a paging loop) is the same model and must be sent as the same text with the same parameters.
+	again := neo4j.NewEmptyQueryBuilder()
+	for _, criterion := range criteria {
+		again.Apply(criterion)
+	}
+	var againErr error
+	if c.AllSP {
+		againErr = again.PrepareAllShortestPaths()
+	} else {
+		againErr = again.Prepare()
+	}
+	if againErr != nil {
+		return fail(fmt.Errorf("a second Neo4j builder given the same criteria values rejects them (%v); the first one sent: %s", againErr, t2))
+	}
+	t3, err := again.Render()
+	if err != nil {
+		return fail(fmt.Errorf("a second Neo4j builder given the same criteria values cannot render (%v); the first one sent: %s", err, t2))
+	}
+	if t3 != t2 || !reflect.DeepEqual(again.Parameters, neoBuilder.Parameters) {
+		return fail(fmt.Errorf("the same criteria values assembled into a second Neo4j query give another question\n  first:  %s %v\n  second: %s %v", t2, neoBuilder.Parameters, t3, again.Parameters))
+	}
+	cls["verdict:criteria-reuse"] = true
 	return finish()
 }
 
